@@ -23,6 +23,7 @@ static std::string algOp(Toks &t) {
   else if (op == "applyAdjoint") { SpatialTransform X = t.xt(); SpatialVector v = t.sv(); o.sv(X.applyAdjoint(v)); }
   else if (op == "inverse") { SpatialTransform X = t.xt(); o.xt(X.inverse()); }
   else if (op == "mul") { SpatialTransform X = t.xt(); SpatialTransform Y = t.xt(); o.xt(X * Y); }
+  else if (op == "mulSelf") { SpatialTransform X = t.xt(); X *= X; o.xt(X); }   // right operand is the same object
   else if (op == "mulAssign") { SpatialTransform X = t.xt(); SpatialTransform Y = t.xt(); X *= Y; o.xt(X); }
   else if (op == "toMatrix") { SpatialTransform X = t.xt(); outSM(o, X.toMatrix()); }
   else if (op == "toMatrixAdjoint") { SpatialTransform X = t.xt(); outSM(o, X.toMatrixAdjoint()); }
